@@ -1165,6 +1165,121 @@ def _trivial_getters(cls) -> dict:
 _CONSUMERS = ("sum", "any", "all", "min", "max", "sorted", "set", "frozenset", "tuple", "list", "dict")
 
 
+def _is_sym_const(x) -> bool:
+    """a string constant or an enumeration member (an attribute chain rooted at a global that ends in an UPPER_CASE name)"""
+    if is_str(x):
+        return True
+    if isinstance(x, tuple) and len(x) == 3 and x[0] == "a" and isinstance(x[2], str) and x[2].isupper():
+        b = x[1]
+        while isinstance(b, tuple) and len(b) == 3 and b[0] == "a":
+            b = b[1]
+        return isinstance(b, tuple) and len(b) == 2 and b[0] == "g"
+    return False
+
+
+def _case_test(c):
+    """(subject, frozenset of constants, positive?) when the test says 'subject is (not) one of these symbolic constants'"""
+    if not isinstance(c, tuple) or not c:
+        return None
+    if c[0] == "cmp" and c[1] in ("seq", "sne") and len(c) == 4:
+        for x, k in ((c[2], c[3]), (c[3], c[2])):
+            if _is_sym_const(k) and not _is_sym_const(x) and _plain_path(x):
+                return x, frozenset([k]), c[1] == "seq"
+        return None
+    if c[0] in ("or", "and") and len(c) == 2:
+        parts = [_case_test(y) for y in c[1]]
+        if any(p_ is None for p_ in parts) or len({p_[0] for p_ in parts}) != 1:
+            return None
+        want_pos = c[0] == "or"
+        if any(p_[2] != want_pos for p_ in parts):
+            return None
+        return parts[0][0], frozenset().union(*[p_[1] for p_ in parts]), want_pos
+    return None
+
+
+def _switch_normal_form(block: tuple) -> tuple:
+    """a chain of tests of ONE subject against symbolic constants (strings, enumeration members) -- if / elif in any order, a
+    membership test in a constant table, a test turned round with the arms exchanged -- is stored with its cases in a fixed
+    order; in a case for a single constant the subject *is* that constant (so ``table[key]`` is the table's entry and
+    ``params[key]`` is ``params['center']``); a case for several constants whose body reads a constant table at the subject is
+    one case per constant"""
+    def assigned(body, x):
+        return bool(atoms_of(body, lambda y: (y[0] in ("set", "for") and len(y) >= 3 and (y[1] == x or (isinstance(y[1], tuple) and y[1][:1] == ("tuple",) and x in y[1][1])))
+                             or (y[0] == "aug" and len(y) == 4 and y[2] == x) or (y[0] == "mset" and x in y[1])))
+
+    def collect(st, subj):
+        """[(constants, body)], default body -- following the chain while the tests are about ``subj``"""
+        t = _case_test(st[1])
+        if t is None or t[0] != subj:
+            return None
+        _, ks, pos = t
+        then, other = (st[2], st[3]) if pos else (st[3], st[2])
+        arms = [(ks, tuple(then))]
+        if len(other) == 1 and isinstance(other[0], tuple) and other[0][:1] == ("if",) and len(other[0]) == 4:
+            more = collect(other[0], subj)
+            if more is not None:
+                return arms + more[0], more[1]
+        return arms, tuple(other)
+
+    def rebuild(st):
+        t = _case_test(st[1])
+        if t is None or _has_effectful_call(st[1]):
+            return st
+        subj = t[0]
+        got = collect(st, subj)
+        if got is None:
+            return st
+        arms, default = got
+        if any(assigned(b, subj) for _, b in arms) or assigned(default, subj):
+            return st
+        seen: set = set()
+        cases = []
+        for ks, body in arms:
+            ks = frozenset(k for k in ks if k not in seen)
+            seen |= ks
+            if not ks:
+                continue
+            reads_table = bool(atoms_of(body, lambda y: y[0] == "s" and len(y) == 3 and y[2] == subj and isinstance(y[1], tuple) and y[1][:1] == ("dict",)))
+            groups = [frozenset([k]) for k in sorted(ks, key=skey)] if reads_table else [ks]
+            for g in groups:
+                b = body
+                if len(g) == 1:
+                    b = _renorm_local(Sigma(raw_subst={subj: next(iter(g))}).apply(body))
+                cases.append((g, tuple(b)))
+        if len(cases) < 2 and not (len(cases) == 1 and len(cases[0][0]) == 1):
+            return st
+        # cases with the same body are one case
+        merged: dict = {}
+        for g, b in cases:
+            merged[b] = merged.get(b, frozenset()) | g
+        cases = sorted(((g, b) for b, g in merged.items()), key=lambda gb: skey(tuple(sorted(gb[0], key=skey))))
+        out = tuple(default)
+        for g, b in reversed(cases):
+            test = mk_or([("cmp", "seq") + tuple(sorted([subj, k], key=skey)) for k in sorted(g, key=skey)])
+            if not b and not out:
+                continue
+            out = (mk_if(test, b, out),)
+        return out[0] if len(out) == 1 else ("seq", out)
+
+    def rec(blk):
+        out = []
+        for st in blk:
+            if isinstance(st, tuple) and st:
+                if st[0] == "if" and len(st) == 4:
+                    st = ("if", st[1], rec(st[2]), rec(st[3]))
+                    st = rebuild(st)
+                    if isinstance(st, tuple) and st[:1] == ("seq",):
+                        out.extend(st[1])
+                        continue
+                elif st[0] == "for" and len(st) == 5:
+                    st = ("for", st[1], st[2], rec(st[3]), rec(st[4]))
+                elif st[0] == "while" and len(st) == 4:
+                    st = ("while", st[1], rec(st[2]), rec(st[3]))
+            out.append(st)
+        return tuple(out)
+    return rec(block)
+
+
 def _plain_path(x) -> bool:
     return isinstance(x, tuple) and (x[:1] in (("v",), ("p",)) or (x[:1] == ("a",) and len(x) == 3 and (x[1] == ("self",) or _plain_path(x[1]))))
 
@@ -1227,6 +1342,16 @@ def _renorm_local(x: S) -> S:
         return mk_or([_truth(y) for y in x[1]])
     if t == "comp" and len(x) == 4:
         return ("comp", x[1], x[2], tuple((g[0], g[1], _truth(g[2])) for g in x[3]))
+    # a constant table read at one of its keys; membership in a constant table
+    if t == "s" and len(x) == 3 and isinstance(x[1], tuple) and x[1][:1] == ("dict",) and len(x[1]) == 2 and _is_sym_const(x[2]) \
+            and all(_is_sym_const(k) for k, _ in x[1][1]):
+        hits = [v for k, v in x[1][1] if k == x[2]]
+        if len(hits) == 1:
+            return hits[0]
+    if t == "cmp" and len(x) == 4 and x[1] in ("in", "notin") and isinstance(x[3], tuple) and x[3][:1] == ("dict",) and len(x[3]) == 2 and x[3][1] \
+            and all(_is_sym_const(k) for k, _ in x[3][1]):
+        eqs = [("cmp", "seq") + tuple(sorted([x[2], k], key=skey)) for k, _ in x[3][1]]
+        return mk_or(eqs) if x[1] == "in" else mk_not(mk_or(eqs))
     # an item of a conditional record: (A if c else B)[k] == A[k] if c else B[k]
     if t in ("s", "proj") and isinstance(x[1], tuple) and x[1][:1] == ("ite",) and len(x[1]) == 4 \
             and all(isinstance(arm, tuple) and arm[:1] in (("tuple",), ("list",)) and len(arm) == 2 for arm in x[1][2:4]):
@@ -1943,7 +2068,7 @@ class Normalizer:
             nums[0] += 1
             return ("v", 500 + nums[0])
         def shape_passes(b):
-            return _index_loops(_param_versions(_if_convert(_ret_peephole(_query_loops(_pair_iteration(b))))))
+            return _switch_normal_form(_index_loops(_param_versions(_if_convert(_ret_peephole(_query_loops(_pair_iteration(b)))))))
 
         def look_through(block):
             defs = single_defs(block, keep_identity)
@@ -1956,7 +2081,7 @@ class Normalizer:
                 if fused != block:
                     block = _index_loops(fused)
                 defs = single_defs(block, keep_identity)
-            return block
+            return _switch_normal_form(block)
         # 1. locals that only name a value are looked through first (so that it does not matter whether a comprehension sat in a
         #    local of its own), 2. then the comprehensions that are assigned / returned / put into a record become collecting loops,
         #    3. and what that uncovers is looked through again
